@@ -150,7 +150,28 @@ func IDs() []string {
 // ---------- worker ----------
 
 // WorkerMain serves unit indices read from stdin.
+// memGuard ends a worker whose heap outgrows every legitimate unit by an order of magnitude (the sandbox has
+// no memory limit and a machine-wide out-of-memory kill takes unrelated processes with it). The master
+// reports the unit as stopped by a cap (not exhaustive), restarts the worker and goes on.
+const memGuardBytes = 6 << 30
+const memGuardExit = 97
+
+func memGuard() {
+	go func() {
+		var ms runtime.MemStats
+		for {
+			time.Sleep(500 * time.Millisecond)
+			runtime.ReadMemStats(&ms)
+			if ms.HeapAlloc > memGuardBytes {
+				fmt.Fprintf(os.Stderr, "verif: memory guard: heap %d MB\n", ms.HeapAlloc>>20)
+				os.Exit(memGuardExit)
+			}
+		}
+	}()
+}
+
 func WorkerMain(c *Check, ctx *Ctx) {
+	memGuard()
 	units := c.Units(ctx)
 	in := bufio.NewScanner(os.Stdin)
 	out := bufio.NewWriter(os.Stdout)
@@ -352,7 +373,11 @@ func MasterMain(c *Check, ctx *Ctx, verifDir string, unitFilter string) int {
 					cmd.Wait()
 					es := errBuf.String()
 					mu.Lock()
-					if implFrames(es) && (strings.Contains(es, "panic:") || strings.Contains(es, "fatal error:")) {
+					if strings.Contains(es, "verif: memory guard") {
+						results[idx] = &Result{Unit: units[idx].Name, Exhaustive: false, Caps: []string{units[idx].Name + ": stopped by the memory guard (" + strings.TrimSpace(clip(es, 200)) + ")"}}
+						crashed = true
+						anyCrash = true
+					} else if implFrames(es) && (strings.Contains(es, "panic:") || strings.Contains(es, "fatal error:")) {
 						// the worker process crashed inside the implementation (a panic in an unmanaged goroutine,
 						// a runtime-detected deadlock, a concurrent map write ...): a violation, not a tooling error
 						results[idx] = &Result{Unit: units[idx].Name, NViol: 1, Violations: []Violation{{Property: c.ID, Unit: units[idx].Name,
